@@ -259,7 +259,9 @@ func init() {
 		if g == nil {
 			return c.fr.havocCall(c, true)
 		}
-		return c.tuple(c.e().heap(c.st, g.name+"_v", "Int"), "iface_nil")
+		cur := c.e().heap(c.st, g.name+"_v", "Int")
+		c.e().assumeIn(c.st, and(app("<=", "0", cur), app("<", cur, "18446744073709551616"))) // stored as uint64
+		return c.tuple(cur, "iface_nil")
 	}
 	libSpecs[sq+"Next"] = func(c *callCtx) Val {
 		e := c.e()
@@ -268,6 +270,7 @@ func init() {
 			return c.fr.havocCall(c, true)
 		}
 		cur := e.heap(c.st, g.name+"_v", "Int")
+		e.assumeIn(c.st, and(app("<=", "0", cur), app("<", cur, "18446744073709551616"))) // stored as uint64
 		e.setHeap(c.st, g.name+"_v", "Int", app("+", cur, "1"))
 		return c.tuple(cur, "iface_nil")
 	}
@@ -346,7 +349,13 @@ func collSet(c *callCtx, keyed bool) Val {
 	if g.kind == "map" && len(c.args) >= 3 {
 		k := e.keyTerm(c.st, c.args[2])
 		dn, vn := g.name+"_d", g.name+"_v"
-		e.setHeap(c.st, dn, e.heapSorts[dn], app("store", e.heap(c.st, dn, e.heapSorts[dn]), k, "true"))
+		dOld := e.heap(c.st, dn, e.heapSorts[dn])
+		e.setHeap(c.st, dn, e.heapSorts[dn], app("store", dOld, k, "true"))
+		{
+			// ghost cardinality: one more key unless it was present
+			e.assumeIn(c.st, eq(e.card(g, e.heap(c.st, dn, e.heapSorts[dn])), app("+", e.card(g, dOld), ite(app("select", dOld, k), "0", "1"))))
+			e.assumeIn(c.st, app(">=", e.card(g, e.heap(c.st, dn, e.heapSorts[dn])), "1")) // it holds k
+		}
 		if len(c.args) >= 4 {
 			e.setHeap(c.st, vn, e.heapSorts[vn], app("store", e.heap(c.st, vn, e.heapSorts[vn]), k, c.args[3].S))
 		} else {
@@ -382,7 +391,12 @@ func collRemove(c *callCtx) Val {
 	}
 	if g.kind == "map" {
 		dn := g.name + "_d"
-		e.setHeap(c.st, dn, e.heapSorts[dn], app("store", e.heap(c.st, dn, e.heapSorts[dn]), e.keyTerm(c.st, c.args[2]), "false"))
+		dOld := e.heap(c.st, dn, e.heapSorts[dn])
+		k := e.keyTerm(c.st, c.args[2])
+		e.setHeap(c.st, dn, e.heapSorts[dn], app("store", dOld, k, "false"))
+		{
+			e.assumeIn(c.st, eq(e.card(g, e.heap(c.st, dn, e.heapSorts[dn])), app("-", e.card(g, dOld), ite(app("select", dOld, k), "1", "0"))))
+		}
 	} else {
 		e.setHeap(c.st, g.name+"_d", "Bool", "false")
 	}
@@ -738,6 +752,12 @@ func (e *Engine) specFunc(y *ECall, env *evalEnv) (Val, bool) {
 			return Val{S: comp, T: bvT}, true
 		}
 		return Val{S: comp, T: specInt}, true
+	case "count":
+		// count(store): number of keys of a store
+		if m := arg(0); m.G != nil && m.G.kind == "map" {
+			return Val{S: e.card(m.G, e.heap(m.GSt, m.G.name+"_d", e.heapSorts[m.G.name+"_d"])), T: specInt}, true
+		}
+		return e.evalErr("count: not a keyed store"), true
 	case "strip0x":
 		// strip0x(s): s without a leading 0x / 0X (registry/types.Remove0xPrefix)
 		e.vc.declFun("strip0x", []string{"Str"}, "Str")
